@@ -34,21 +34,28 @@ class C04(Prop):
 
     def strategy(self, tier):
         numbers = st.one_of(gens.finite_doubles(), gens.finite_doubles(), gens.finite_doubles(), gens.top_doubles())
-        leaves_b = gens.scalars_built(strings=st.one_of(gens.byte_strings(16), gens.escapey_strings(), gens.invalid_utf8_strings()), numbers=numbers)
-        leaves_u = gens.scalars_built(strings=gens.with_long(st.one_of(gens.utf8_strings(10), gens.escapey_strings()), 10), numbers=numbers)
+        strings_b = st.one_of(gens.byte_strings(16), gens.escapey_strings(), gens.invalid_utf8_strings(), gens.invalid_utf8_strings())
+        strings_u = gens.with_long(st.one_of(gens.utf8_strings(10), gens.escapey_strings()), 10)
+
+        def string_heavy(strings):
+            # (strings and numbers are what this property is about: four leaves in five are one or the other)
+            return st.integers(0, 9).flatmap(lambda k: strings.map(lambda b: ["S", b]) if k < 5 else
+                                             (numbers.map(lambda d: ["N", d]) if k < 8 else st.sampled_from([["n"], ["t"], ["f"]])))
+        leaves_b = string_heavy(strings_b)
+        leaves_u = string_heavy(strings_u)
         keys_b = st.one_of(gens.byte_strings(6), gens.ascii_keys(3), gens.escapey_strings(4), gens.invalid_utf8_strings(4))
         keys_u = gens.with_long(st.one_of(gens.utf8_strings(5), gens.ascii_keys(3), gens.escapey_strings(4)), 120)
-        tree = st.one_of(
-            gens.shaped_documents(leaves_b, keys_b, max_leaves=16).map(lambda d: {"kind": "tree", "jv": d, "utf8": False}),
-            gens.shaped_documents(leaves_u, keys_u, max_leaves=16).map(lambda d: {"kind": "tree", "jv": d, "utf8": True}),
-            numbers.map(lambda d: {"kind": "tree", "jv": ["N", d], "utf8": True}),
-            gens.long_string_documents(gens.shaped_documents(leaves_u, keys_u, max_leaves=3)).map(lambda d: {"kind": "tree", "jv": d, "utf8": True}),
-            st.tuples(st.sampled_from(["[", "{", "[{"]), leaves_u).map(lambda t: {"kind": "tree", "jv": ["D", t[0], ["limit", 0], t[1]], "utf8": True}),
+        tree = gens.weighted(
+            (8, gens.shaped_documents(leaves_b, keys_b, max_leaves=16).map(lambda d: {"kind": "tree", "jv": d, "utf8": False})),
+            (8, gens.shaped_documents(leaves_u, keys_u, max_leaves=16).map(lambda d: {"kind": "tree", "jv": d, "utf8": True})),
+            (1, numbers.map(lambda d: {"kind": "tree", "jv": ["N", d], "utf8": True})),
+            (2, gens.long_string_documents(gens.shaped_documents(leaves_u, keys_u, max_leaves=3)).map(lambda d: {"kind": "tree", "jv": d, "utf8": True})),
+            (1, st.tuples(st.sampled_from(["[", "{", "[{"]), leaves_u).map(lambda t: {"kind": "tree", "jv": ["D", t[0], ["limit", 0], t[1]], "utf8": True})),
             # shallow, but more containers in total than the parser's nesting limit
-            st.tuples(st.sampled_from([["O", []], ["A", []], ["O", [[b"k", ["A", []]]]]]), st.sampled_from([999, 1000, 1001, 1200, 2050, 10000, 10001, 10002, 20000]),
+            (1, st.tuples(st.sampled_from([["O", []], ["A", []], ["O", [[b"k", ["A", []]]]]]), st.sampled_from([999, 1000, 1001, 1200, 2050, 10000, 10001, 10002, 20000]),
                       st.sampled_from([["A", [["A", [["O", [[b"deep", ["A", [["t"]]]]]]]]]], ["N", 1.5]])).map(
                 lambda t: {"kind": "tree", "utf8": True,
-                           "jv": ["A", [t[0]] * t[1] + [t[2]]] if t[1] % 2 == 0 or t[1] < 10000 else ["O", [[b"k%d" % i, t[0]] for i in range(t[1])] + [[b"last", t[2]]]]}),
+                           "jv": ["A", [t[0]] * t[1] + [t[2]]] if t[1] % 2 == 0 or t[1] < 10000 else ["O", [[b"k%d" % i, t[0]] for i in range(t[1])] + [[b"last", t[2]]]]})),
         )
         sweep = st.fixed_dictionaries({"kind": st.just("numbers"),
                                        "values": st.lists(st.one_of(numbers, st.integers(-330, 310).map(pow10),
